@@ -41,6 +41,7 @@ props! {
     "C14" => c14,
     "C15" => c15,
     "C16" => c16,
+    "C17" => c17,
     "C18" => c18,
 }
 
@@ -83,6 +84,8 @@ pub fn extra_command(api: &dyn GlobalApi, cmd: &str, args: &[String]) -> i32 {
     let num = |i: usize| -> u64 { args.get(i).and_then(|s| s.parse().ok()).unwrap_or(0) };
     match cmd {
         "c18-first" => return c18::firstcall_child(api, num(2) as usize, num(3)),
+        "c17-batch" => return c17::batch_child(api, args),
+        "c17-one" => return c17::one_child(api, args),
         _ => {}
     }
     eprintln!("unknown command {:?}; use: caps | selftest | run <ID> [--tier T] [--seed N] [--out F] [--sub a,b] | replay <file>", cmd);
